@@ -1,75 +1,104 @@
-// Behaviour of the UNCHANGED tree (not the seeded change).
+// Behaviour of the UNCHANGED tree (independent of patch.diff).
 //
-// A bottom-up summary is the exit invariant of the callee projected onto the
-// formal parameters, and the caller reads the formal input variables of that
-// summary as the values passed at the call.  If the callee assigns to one of
-// its input parameters the summary relates the outputs with the FINAL value of
-// that parameter, so the caller derives a wrong output.
+//   inc(a) -> (r)   { a := a + 1; r := a; }       // re-assigns its own formal input
+//   main() -> (w)   { x := 5; y := inc(x); w := y; }
 //
-//   inc(x) -> r :  x := x + 1; r := x;      summary: r = x   (x is the new x)
-//   main() -> b :  a := 0; b := inc(a);     reported: b = 0, concretely b = 1
+// CrabIR does not forbid a function from assigning to one of its input
+// parameters (the cfg type checker and function_decl only require inputs and
+// outputs to be disjoint). The bottom-up phase projects the state at the exit
+// of inc onto {a, r} and takes that as the input/output relation, i.e. it
+// reads the FINAL value of a as if it were the value on entry:
+//     summary(inc) = { r == a }
+// but the only concrete (input, output) pair for input 5 is (a=5, r=6).
+// The top-down continuation in main then derives y == 5 (concretely y == 6).
 //
-// Caveat: the CrabIR documentation (cfg.hpp, "Function calls") tells clients to
-// keep input parameters intact (copy them into outputs), and cfg type checking
-// only enforces that inputs and outputs are disjoint, so this may be regarded
-// as an unsupported program rather than as a defect.  It is accepted silently.
-//
-// exit status 1 if the reported invariant excludes the concrete result.
-#include "crab_dom.hpp"
-#include "crab_lang.hpp"
+// exit status: 1 when the violation is observed, 0 otherwise.
 
-#include <crab/analysis/graphs/sccg_bgl.hpp>
+#include "crab_lang.hpp"
+#include "crab_dom.hpp"
+
 #include <crab/analysis/inter/bottom_up_inter_analyzer.hpp>
 #include <crab/analysis/inter/inter_params.hpp>
 #include <crab/cg/cg_bgl.hpp>
 
-using namespace crab::analyzer;
+#include <cstdio>
+#include <vector>
+
 using namespace crab::cfg;
 using namespace crab::cfg_impl;
 using namespace crab::domain_impl;
-using namespace crab::cg;
+using namespace crab::cg_impl;
 
 int main() {
+  crab::CrabEnableWarningMsg(false);
   variable_factory_t vfac;
-  z_var x(vfac["x"], crab::INT_TYPE, 32);
-  z_var r(vfac["r"], crab::INT_TYPE, 32);
+
   z_var a(vfac["a"], crab::INT_TYPE, 32);
-  z_var b(vfac["b"], crab::INT_TYPE, 32);
+  z_var r(vfac["r"], crab::INT_TYPE, 32);
+  function_decl<z_number, varname_t> inc_decl("inc", {a}, {r});
+  z_cfg_t inc("entry", "exit", inc_decl);
+  {
+    z_basic_block_t &entry = inc.insert("entry");
+    z_basic_block_t &exit = inc.insert("exit");
+    entry >> exit;
+    entry.add(a, a, 1);
+    exit.assign(r, a);
+  }
 
-  function_decl<z_number, varname_t> fdecl("inc", {x}, {r});
-  z_cfg_t f("entry", "exit", fdecl);
-  z_basic_block_t &fe = f.insert("entry");
-  z_basic_block_t &fx = f.insert("exit");
-  fe >> fx;
-  fe.add(x, x, 1);
-  fe.assign(r, x);
+  z_var x(vfac["x"], crab::INT_TYPE, 32);
+  z_var y(vfac["y"], crab::INT_TYPE, 32);
+  z_var w(vfac["w"], crab::INT_TYPE, 32);
+  function_decl<z_number, varname_t> main_decl("main", {}, {w});
+  z_cfg_t mainf("entry", "exit", main_decl);
+  {
+    z_basic_block_t &entry = mainf.insert("entry");
+    z_basic_block_t &exit = mainf.insert("exit");
+    entry >> exit;
+    entry.assign(x, 5);
+    entry.callsite("inc", {y}, {x});
+    exit.assign(w, y);
+  }
 
-  function_decl<z_number, varname_t> mdecl("main", {}, {b});
-  z_cfg_t m("entry", "exit", mdecl);
-  z_basic_block_t &me = m.insert("entry");
-  z_basic_block_t &mx = m.insert("exit");
-  me >> mx;
-  me.assign(a, 0);
-  me.callsite("inc", {b}, {a});
-
-  using callgraph_t = call_graph<z_cfg_ref_t>;
   std::vector<z_cfg_ref_t> cfgs;
-  cfgs.push_back(f);
-  cfgs.push_back(m);
-  callgraph_t cg(cfgs);
+  cfgs.push_back(mainf);
+  cfgs.push_back(inc);
+  z_cg_t cg(cfgs);
 
-  using analyzer_t = bottom_up_inter_analyzer<callgraph_t, z_dbm_domain_t,
-                                              z_interval_domain_t>;
+  using analyzer_t =
+      crab::analyzer::bottom_up_inter_analyzer<z_cg_t, z_dbm_domain_t,
+                                               z_interval_domain_t>;
   z_dbm_domain_t bu_top;
   z_interval_domain_t td_top;
   analyzer_t an(cg, td_top, bu_top);
   an.run(td_top);
 
-  z_cfg_ref_t ref(m);
-  auto post = an.get_post(ref, "entry");
-  crab::outs() << "main:entry post = " << post << "   (concretely a=0, b=1)\n";
-  z_interval_domain_t::interval_t one(z_number(1));
-  bool bad = post.is_bottom() || !(one <= post[b]);
-  crab::outs() << (bad ? "FAIL: b=1 is excluded\n" : "PASS\n");
-  return bad ? 1 : 0;
+  bool violated = false;
+
+  // (1) the summary of inc must contain the pair (a=5, r=6)
+  z_cfg_ref_t inc_ref(inc);
+  auto summ = an.get_summary(inc_ref);
+  for (auto const &pp : summ) {
+    z_dbm_domain_t post = pp.get_post();
+    crab::outs() << "summary(inc) = " << post << "\n";
+    post += (z_lin_exp_t(a) == z_number(5));
+    post += (z_lin_exp_t(r) == z_number(6));
+    if (post.is_bottom()) {
+      std::printf("UNSOUND: summary of inc excludes the concrete pair "
+                  "(a=5, r=6)\n");
+      violated = true;
+    }
+  }
+
+  // (2) the invariant at the exit of main must contain y == 6
+  z_cfg_ref_t main_ref(mainf);
+  z_interval_domain_t inv = an.get_pre(main_ref, "exit");
+  crab::outs() << "main.exit pre = " << inv << "\n";
+  inv += (z_lin_exp_t(y) == z_number(6));
+  if (inv.is_bottom()) {
+    std::printf("UNSOUND: invariant before main.exit excludes the concrete "
+                "state y=6\n");
+    violated = true;
+  }
+
+  return violated ? 1 : 0;
 }
